@@ -147,6 +147,9 @@ class Tr:
                 else:
                     raise Unsupported(f"comparison {t}")
                 return f"(!{c})" if neg else c
+            if isinstance(l, ast.Name) and env.get(l.id, ("",))[0] == "file" and u(r) == "None":
+                c = f"(w.getFile {self.S} {env[l.id][1]}).isNone"
+                return f"(!{c})" if neg else c
             if isinstance(l, ast.Call) and u(l.func) == "self.file_system.get_file" and u(r) == "None" and not l.args:
                 loc = self.loc_of({k.arg: k.value for k in l.keywords}, env)
                 c = f"(w.getFile {self.S} {loc}).isNone"
@@ -307,6 +310,8 @@ class Tr:
             if isinstance(tgt, ast.Attribute) and tgt.attr == "health_status" and env.get(u(tgt.value), ("",))[0] == "file" \
                     and env.get(vs, ("",))[0] == "health":
                 return (f"{pad}let w := w.setHealth {self.S} {env[u(tgt.value)][1]} {env[vs][1]}\n" + self.go(rest, env, ind, handler))
+            if isinstance(tgt, ast.Attribute) and tgt.attr in ("sim_size",) and env.get(u(tgt.value), ("",))[0] == "file":
+                return self.go(rest, env, ind, handler)      # the size of a file is not modelled
             if not isinstance(tgt, ast.Name):
                 raise Unsupported(f"assignment {u(st)[:100]}")
             # packet construction
@@ -345,6 +350,9 @@ class Tr:
                 v = self.fresh("b")
                 return emit(pre + [f"let {v} : Bool := {b}"]) + self.go(rest, dict(env2, **{tn: ("bool", v)}), ind, handler)
             raise Unsupported(f"assignment {u(st)[:100]}")
+        if isinstance(st, ast.AugAssign) and isinstance(st.target, ast.Attribute) and st.target.attr == "num_access" \
+                and env.get(u(st.target.value), ("",))[0] == "file":
+            return self.go(rest, env, ind, handler)          # access counters are not modelled
         if isinstance(st, ast.Expr) and isinstance(st.value, ast.Call):
             c = st.value
             if u(c.func) in ("self._process_ftp_command", "super()._process_ftp_command"):
